@@ -7,7 +7,7 @@
 #define private public
 #include "impl.h"
 #undef private
-#include "/repo/src/impl.cpp"
+#include "impl.cpp"
 using namespace manifold;
 static double D() { return vf_nondet_f64(); }
 // SetEpsilon for every bounding box / tolerance / minEpsilon bit pattern:
